@@ -22,6 +22,14 @@ CORE = [i["id"] for i in cat.INSTANCES if i["core"]]
 USER_INSTS = ["with_foo", "with_bar", "with_fin", "with_baz", "with_width", "with_pos", "at_vec", "on_box", "on_ob",
               "facing_toward", "with_yaw", "left_of_vec", "visible_pt", "in_regO"]
 USER_CLASSES = ["Base", "Derived", "Deeper", "Pinned", "Broken"]
+# round 3: tracer classes (falsy defaults, defaults reading built-in properties, additive over plain, default position)
+TR_CLASSES = ["Tr", "TrMid", "TrLeaf"]
+TR_INSTS = ["with_p0", "with_pn", "with_pt", "with_ps", "with_pf", "with_yaw0", "facing_l0", "at_over", "with_pos_over", "on_ob",
+            "with_width", "left_of_vec", "facing_toward", "with_pori", "on_regO", "in_regO", "at_vec"]
+TR_PAIRS = [("at_over", "on_ob"), ("with_pos_over", "on_ob"), ("with_pori", "on_regO"), ("in_regO", "on_ob"), ("with_width", "left_of_vec"),
+            ("at_vec", "facing_toward"), ("with_yaw0", "facing_l0"), ("with_p0", "with_pt"), ("in_regO", "on_regO"), ("with_pn", "with_pf")]
+TR_TRIPLES = [("at_over", "on_ob", "with_pori"), ("in_regO", "on_regO", "with_pori"), ("at_over", "on_ob", "facing_toward"),
+              ("with_width", "left_of_vec", "facing_toward"), ("with_p0", "with_width", "with_pt"), ("in_regO", "on_ob", "with_yaw0")]
 
 
 class Intern:
@@ -91,7 +99,57 @@ def gen_groups(rng, quick):
             tr = list(itertools.combinations(USER_INSTS, 3))
             rng.shuffle(tr)
             groups += [(cls, t) for t in tr[:120]]
+    for cls in TR_CLASSES:
+        groups.append((cls, ()))
+        groups += [(cls, (a,)) for a in TR_INSTS]
+        pairs = [p for p in itertools.combinations(TR_INSTS, 2) if p not in TR_PAIRS and p[::-1] not in TR_PAIRS]
+        rng.shuffle(pairs)
+        groups += [(cls, p) for p in TR_PAIRS + pairs[:30 if quick else 200]]
+        tr = [t for t in itertools.combinations(TR_INSTS, 3)]
+        rng.shuffle(tr)
+        groups += [(cls, t) for t in TR_TRIPLES + tr[:10 if quick else 150]]
     return groups
+
+
+def probe_groups(secs):
+    """Round 3: what does a specifier do to a property P that `with P v` has already specified?  For every catalogue
+    instance I and every documented property P of I that has a `with P` instance: the pair (with P, I) on Object.
+    -> [(inst id, P, with id, mode2D)]"""
+    out = []
+    for inst in cat.INSTANCES:
+        if inst["sec"] not in secs:
+            continue
+        dv = docs.expected_row(secs[inst["sec"]], inst)
+        for p, _ in dv["prios"]:
+            ws = cat.PROBE_WITH.get(p)
+            for m2, w in enumerate(ws if isinstance(ws, tuple) else (ws, ws)):   # (instance used in 3D, in 2D)
+                if w is not None and w != inst["id"] and (inst["id"], p, w, bool(m2)) not in out:
+                    out.append((inst["id"], p, w, bool(m2)))
+    return out
+
+
+def doc_probe_outcome(dv, inst, p, winst):
+    """The reference's answer for `with P v, I`: 0 P keeps the value of `with`, 1 I modifies it, 2 refused."""
+    if inst["sec"] == winst["sec"] and inst.get("given") == winst.get("given"):
+        return 2                      # the same specifier twice
+    k = dict(map(tuple, dv["prios"]))[p]
+    if dv["mod"]:
+        return 1 if p in dv["modifiable"] else 0
+    return 2 if k == 1 else 0
+
+
+def match_pub(got, slots, exact):
+    """got: tags logged; slots: the model's evaluation order restricted to logging specifiers/defaults, each slot the set of
+    tags one specifier logs (an additive default evaluates the expressions of all classes defining it)."""
+    i = 0
+    for sl in slots:
+        chunk = got[i:i + len(sl)]
+        if len(chunk) < len(sl):
+            return (not exact) and all(x in sl for x in chunk) and i + len(chunk) == len(got)
+        if sorted(chunk) != sorted(sl):
+            return False
+        i += len(sl)
+    return i == len(got)
 
 
 # ------------------------------------------------------------------ the reference's procedure, order-free
@@ -359,6 +417,20 @@ def main():
         if "insts" in case and "cls" in case:
             groups = [(case["cls"], tuple(sorted(case["insts"])))]
     it = Intern()
+    doc_path = os.path.join(common.REPO, "docs/reference/specifiers.rst")
+    secs = None
+    try:
+        secs = docs.parse(open(doc_path).read())
+    except docs.DocError as e:
+        c.violation("doc-parse", "docs/reference/specifiers.rst no longer has the shape the fail-closed parser understands",
+                    dict(error=str(e)), no_input=True)
+    probes = probe_groups(secs) if secs is not None and not c.replay else []
+    have = set(groups)
+    for iid, p, w, _ in probes:
+        for g in (("Object", (w,)), ("Object", (iid,)), ("Object", tuple(sorted((w, iid))))):
+            if g not in have and ("Object", g[1][::-1]) not in have:
+                have.add(g)
+                groups.append(g)
     if not c.replay:
         merge_stage(c, it, exe, quick)
     jobs = []
@@ -367,7 +439,7 @@ def main():
             for perm in itertools.permutations(sub):
                 jobs.append(dict(mode2D=mode2D, cls=cls, insts=list(perm)))
     # ---- run the implementation
-    nw = min(8, common.NCPU)
+    nw = max(2, min(8, common.NCPU, int(os.environ.get("VERIF_WORKERS", "8"))))
     chunks = []
     for mode2D in (False, True):
         mj = [j for j in jobs if j["mode2D"] == mode2D]
@@ -394,14 +466,8 @@ def main():
         c.finish()
 
     # ---- (G) regenerated tables: code vs reference
-    doc_path = os.path.join(common.REPO, "docs/reference/specifiers.rst")
-    secs = None
-    try:
-        secs = docs.parse(open(doc_path).read())
-    except docs.DocError as e:
-        c.violation("doc-parse", "docs/reference/specifiers.rst no longer has the shape the fail-closed parser understands",
-                    dict(error=str(e)), no_input=True)
-    gen = ["From Coq Require Import ZArith NArith List Bool.", "From Scenic Require Import C06.Specifier.",
+    byjob = {(job["mode2D"], job["cls"], tuple(job["insts"])): obs for job, obs in results}
+    gen = ["From Coq Require Import ZArith NArith List Bool.", "From Scenic Require Import C06.Specifier C06.Modifiable.",
            "Import ListNotations.", "Open Scope Z_scope.",
            "Definition row := (N * list (N * Z) * list N * bool * list N)%type."]
     table_rows = 0
@@ -466,6 +532,59 @@ def main():
                     f"Theorem mod_single_name_{tag} : forallb (fun a => forallb (fun b => implb (is_mod a && is_mod b) (N.eqb (sname a) (sname b))) specs_{tag}) specs_{tag} = true.\nProof. vm_compute. reflexivity. Qed.",
                     f"Theorem no_self_dependency_{tag} : forallb (fun s => forallb (fun pk => negb (memN (fst pk) (deps s))) (prios s)) specs_{tag} = true.\nProof. vm_compute. reflexivity. Qed.",
                     f"Theorem prios_keys_nodup_{tag} : forallb (fun s => nodupb (map fst (prios s))) specs_{tag} = true.\nProof. vm_compute. reflexivity. Qed."]
+            # round 3: what a modifying specifier may modify, as table facts on what the code says now
+            gen += [f"Theorem modifiable_within_prios_{tag} : forallb (fun s => forallb (fun p => memN p (map fst (prios s))) (modifiable s)) specs_{tag} = true.\nProof. vm_compute. reflexivity. Qed.",
+                    f"Theorem only_modifiers_modify_{tag} : forallb (fun s => is_mod s || match modifiable s with [] => true | _ => false end) specs_{tag} = true.\nProof. vm_compute. reflexivity. Qed.",
+                    f"Definition modifiable_code_{tag} : list (N * list N) := map (fun r => match r with (n, _, _, _, mo) => (n, mo) end) code_table_{tag}.",
+                    f"Definition modifiable_doc_{tag} : list (N * list N) := map (fun r => match r with (n, _, _, _, mo) => (n, mo) end) doc_table_{tag}.",
+                    f"Theorem modifiable_agrees_{tag} : modifiable_code_{tag} = modifiable_doc_{tag}.\nProof. vm_compute. reflexivity. Qed."]
+            # ... and regenerated from BEHAVIOUR (public syntax only): `new Object with P v, I` for every instance I and documented
+            # property P of I; observed 0 = P keeps the value given by `with`, 1 = I modified it (value changed, or the modifying
+            # evaluation itself failed), 2 = refused.  The kernel evaluates the model's phases 0-2 on the DOCUMENTED rows.
+            prow, nprobe = [], 0
+            for iid, pp, w, for2D in probes:
+                if for2D != mode2D:
+                    continue
+                inst, winst = INST[iid], INST[w]
+                base = byjob.get((mode2D, "Object", (w,)))
+                alone = byjob.get((mode2D, "Object", (iid,)))
+                if base is None or alone is None or base["stage"] != "ok" or alone["stage"] != "ok" or pp not in base.get("vals", {}):
+                    c.hist(f"probe:{tag}:skipped-baseline-fails")
+                    continue
+                dv, dw = docs.expected_row(secs[inst["sec"]], inst), docs.expected_row(secs[winst["sec"]], winst)
+                want = doc_probe_outcome(dv, inst, pp, winst)
+                seen = []
+                for order in ((w, iid), (iid, w)):
+                    o = byjob.get((mode2D, "Object", order))
+                    if o is None:
+                        continue
+                    if o["stage"] == "ok":
+                        code = 0 if o.get("vals", {}).get(pp) == base["vals"][pp] else 1
+                    elif o.get("is_specifier_error") and o["stage"] == "resolve":
+                        code = 2
+                    else:
+                        code = 4      # evaluation failed although each specifier alone evaluates: only a modification explains it
+                    seen.append((order, code, o))
+                for order, code, o in seen:
+                    nprobe += 1
+                    c.count(("probe", tag, order), nontrivial=True)
+                    c.hist(f"probe:{tag}:observed-{code}")
+                    if (1 if code == 4 else code) != want:
+                        c.violation("modifiable-probe", "what a specifier does to a property already specified by `with` differs from the reference "
+                                    "(0 keeps the value, 1 modifies it, 2 refused, 4 evaluation fails)",
+                                    dict(mode2D=mode2D, cls="Object", insts=list(order), syntax=[INST[k]["syntax"] for k in order], property=pp,
+                                         observed=code, reference=want, value_with_alone=base["vals"][pp], value=o.get("vals", {}).get(pp),
+                                         exc=o.get("exc"), msg=o.get("msg")))
+                        break
+                if seen:
+                    obs_code = 1 if seen[0][1] == 4 else seen[0][1]
+                    def drow(v, i):
+                        return dict(name="doc:" + i["sec"] + ":" + str(i.get("given")), prios=v["prios"], deps=v["deps"], mod=v["mod"], modifiable=v["modifiable"])
+                    prow.append(f"({coq_spec(it, drow(dw, winst))}, {coq_spec(it, drow(dv, inst))}, {it.prop(pp)}%N, {obs_code}%N)")
+            c.cov[f"probe_cases_{tag}"] = nprobe
+            if prow:
+                gen += [f"Definition probe_rows_{tag} : list (spec * spec * N * N) := [\n  " + ";\n  ".join(prow) + "].",
+                        f"Theorem probe_behaviour_{tag} : forallb (fun r => match r with (w, i, p, o) => N.eqb (probe_outcome [w; i] p) o end) probe_rows_{tag} = true.\nProof. vm_compute. reflexivity. Qed."]
             # F1 on the exported table, evaluated by the kernel: all six orders are an ambiguity error
             t = tables[mode2D]
             trio = [t.get(k) for k in ("visible_pt", "at_vec", "notvisible_pt")]
@@ -476,7 +595,7 @@ def main():
         ok, out = common.run_coq_cases("C06_SpecTable", "\n".join(gen) + "\n")
         c.cov["gen_table_rows"] = table_rows
         c.cov["gen_file"] = "gen/C06_SpecTable.v"
-        if not ok and not any(v[0] == "doc-table" for v in c.violations):
+        if not ok and not any(v[0] in ("doc-table", "modifiable-probe") for v in c.violations):
             c.violation("proof", "a theorem over the regenerated specifier table (gen/C06_SpecTable.v) no longer checks",
                         dict(log=out[-1500:]), no_input=True)
         elif not ok:
@@ -527,11 +646,15 @@ def main():
             stage = "eval"   # without the internal hooks an evaluation failure cannot be told from its position
 
         # what public syntax alone shows: which logging values / default expressions were evaluated, in which order
-        pub_tag = {k: k for k in job["insts"] if k in cat.PUBLIC_INSTS}
+        pub_tag = {k: [k] for k in job["insts"] if k in cat.PUBLIC_INSTS}
         for cn, _ in ci["mro"]:
             for p in cat.PUBLIC_DEFAULTS.get(cn, []):
-                pub_tag.setdefault("default:" + p, f"{cn}.{p}")   # most derived class first
+                if "default:" + p not in pub_tag:       # most derived class first
+                    pub_tag["default:" + p] = [f"{cn}.{p}"]
+                    if p in cat.ADDITIVE.get(cn, []):   # an additive default evaluates the expressions of all classes defining it
+                        pub_tag["default:" + p] = [f"{c2}.{p}" for c2, _ in ci["mro"] if p in cat.PUBLIC_DEFAULTS.get(c2, [])]
         key2tag = {lab2key[l]: t for l, t in pub_tag.items() if l in lab2key}
+        parsed = {}
 
         def agrees(m):
             if m.startswith("ERR"):
@@ -549,9 +672,8 @@ def main():
             mo = [x for x in opart.strip().split(",") if x]
             want_pub = [key2tag[x] for x in mo if x in key2tag]
             got_pub = obs.get("pub") or []
-            if stage == "ok" and got_pub != want_pub:
-                return False
-            if stage != "ok" and got_pub != want_pub[:len(got_pub)]:
+            parsed[m] = (mp, mm)
+            if not match_pub(got_pub, want_pub, stage == "ok"):
                 return False
             if not hooks:
                 return True
@@ -565,7 +687,8 @@ def main():
             return io == mo[:len(io)] and all(mp.get(p) == k for p, k in ip.items()) and all(mm.get(p) == k for p, k in im.items())
 
         a_new, a_old = agrees(new), agrees(old)
-        verdict[n] = dict(new=new, old=old, agrees_new=a_new, agrees_old=a_old, stage=stage, hooks=hooks)
+        verdict[n] = dict(new=new, old=old, agrees_new=a_new, agrees_old=a_old, stage=stage, hooks=hooks,
+                          maps=parsed.get(new), key2tag=key2tag)
         c.hist("observation:" + ("internal-hooks+public" if hooks else "public-only"))
         if obs.get("pub"):
             c.hist("public-log:nonempty")
@@ -582,7 +705,7 @@ def main():
         for n in ns:
             job, obs = results[n]
             c.hist("stage:" + obs["stage"] + (":" + (obs.get("kind") or obs.get("exc", "")) if obs["stage"] != "ok" else ""))
-            c.hist(f"size:{len(sub)}:{'2d' if mode2D else '3d'}:{'Object' if cls == 'Object' else 'user'}")
+            c.hist(f"size:{len(sub)}:{'2d' if mode2D else '3d'}:{'Object' if cls == 'Object' else ('tracer' if cls in TR_CLASSES else 'user')}")
             if obs["stage"] == "construct":
                 c.count()
                 continue
@@ -608,6 +731,33 @@ def main():
                 reported = True
                 c.violation("correspondence", "implementation and model of specifier resolution disagree",
                             dict(base, model=v["new"][:600], model_old=v["old"][:300]))
+            # round 3, public syntax only: (i) a default expression that reads a property must see its FINAL value,
+            # (ii) a property held (unmodified) by a specifier/default with a literal value has that value, falsy or not,
+            # (iii) nothing may fail because a property was read before it was specified
+            if obs["stage"] == "ok" and not reported:
+                vals = obs.get("vals") or {}
+                for tg, seen_fp in obs.get("pubvals") or []:
+                    mt = re.fullmatch(r"\w+\.tr_(\w+)", tg)
+                    if mt and mt.group(1) in vals and vals[mt.group(1)] != seen_fp and not reported:
+                        reported = True
+                        c.violation("dep-final", "a default expression read a property before it had its final value",
+                                    dict(base, expression=tg, property=mt.group(1), value_seen=seen_fp, final_value=vals[mt.group(1)]))
+                if v.get("maps") and v["agrees_new"] and not reported:
+                    mp, mm = v["maps"]
+                    names = {str(num): nm_ for nm_, num in it.props.items()}
+                    for pnum, key in mp.items():
+                        tg = v["key2tag"].get(key)
+                        if tg and len(tg) == 1 and tg[0] in cat.VALUE and pnum not in mm:
+                            vp, want_fp = cat.VALUE[tg[0]]
+                            c.hist("value-oracle:checked")
+                            if names.get(pnum) == vp and vp in vals and vals[vp] != want_fp and not reported:
+                                reported = True
+                                c.violation("value", "a property does not have the value of the specifier/default that holds it",
+                                            dict(base, property=vp, holder=tg[0], expected=want_fp, final_value=vals[vp]))
+            if obs["stage"] == "eval" and obs.get("exc") == "AttributeError" and cls != "Broken" and not reported:
+                reported = True
+                c.violation("order", "evaluation failed reading a property that was not yet available",
+                            dict(base, model=v["new"][:600]))
             s, g = impl_assignment(obs)
             resolved = v["stage"] in ("ok", "eval")
             sigs.append((n, ("resolved", tuple(sorted(s.items())), tuple(sorted(g.items())), tuple(sorted(obs.get("pub") or []))) if obs["stage"] == "ok"
